@@ -2,7 +2,8 @@
    Statements only; proofs are in Loc/LocProps.v, the source-shape obligations in Loc/Rules.v. *)
 From Coq Require Import List NArith Bool String.
 Import ListNotations.
-Require Import Verif.Loc.Model Verif.Loc.LocProps Verif.Loc.Rules Verif.Gen.LocRules.
+Require Verif.Imports.Collect.
+Require Import Verif.Loc.Model Verif.Loc.LocProps Verif.Loc.OrderProps Verif.Loc.Rules Verif.Gen.LocRules.
 Local Open Scope N_scope.
 
 (* ANTLR's counting (lines from 1, one column per code point, tabs and non-ASCII characters included) followed by
@@ -99,3 +100,118 @@ Theorem C08_decl_count_spec : forall fs g k,
         (filter (fun d => d_key d =? k) (declarations (map (fun i => nth (N.to_nat i) fs dfile) (flatten g)))).
 Proof. exact decl_count_spec. Qed.
 Print Assumptions C08_decl_count_spec.
+
+
+(* ================= round 3 ================= *)
+
+(* end_exact: for every text and every declaration forest the k-th context has the kind of the k-th declaration and, for
+   the kinds whose End the code takes from the rule's stop token and never overwrites (field, parameter, event, REST
+   method, annotation, attribute, modifier, array item, import, enum, alias, union, union member), the end stands exactly
+   behind the stop token: character column + BYTE length of a real token, or - for a rule closed by a DEDENT - behind the
+   token that triggered the DEDENT plus the byte length of the first character of the file *)
+Theorem C08_loc_end_exact : forall fs,
+  Forall2 (fun e d =>
+             ekind e = d_kind d /\
+             (end_exact_kind (d_kind d) = true ->
+                (forall ln c w len, written_at (d_lines d) (d_last d) = Some (ln, c, R w len) ->
+                   cend (ectx e) = {| lline := ln; lcol := c + len |}) /\
+                (forall ln c, written_at (d_lines d) (d_last d) = Some (ln, c, S) ->
+                   cend (ectx e) = {| lline := ln; lcol := c + trigger_width (d_lines d) (d_last d) + d_dl d |})))
+          (compile fs) (declarations fs).
+Proof. exact loc_end_exact. Qed.
+Print Assumptions C08_loc_end_exact.
+
+(* non-vacuity: in ex_files the field f0 of the first file (key 4, an exact kind) stops at item 20, the token `int`
+   written at line 3, character 8, three bytes long - and its context ends at 3:11 *)
+Example C08_end_exact_nonvacuous :
+  end_exact_kind kField = true
+  /\ written_at (f_lines (hd (F 0 [] []) ex_files)) 20 = Some (3, 8, R 3 3)
+  /\ map (fun c => (lline (cend c), lcol (cend c))) (contexts_of 4 (compile ex_files)) = [(3, 11); (2, 20)].
+Proof. vm_compute. repeat split; reflexivity. Qed.
+
+(* the listener state across files: compile (the helper replaced by a fresh one for every file, lastEnd threaded) *)
+Theorem C08_compile_state : forall fs, compile fs = compile_from 0 fs loc0.
+Proof. exact compile_eq. Qed.
+Print Assumptions C08_compile_state.
+
+(* the "..." body of an application is an endpoint of the module without any location: the strongest true statement
+   (an element carries exactly the contexts of its context-recording declarations, so none) and the refutation of
+   "every endpoint records where it was declared" *)
+Theorem C08_placeholder_partial : forall fs k,
+  ~ In k (map d_key (declarations fs)) -> contexts_of k (compile fs) = [].
+Proof. exact placeholder_no_location. Qed.
+Print Assumptions C08_placeholder_partial.
+
+(* non-vacuity of the hypothesis: in holder_file (`X:` / `    ...`) key 2 is carried by the "..." body only *)
+Example C08_placeholder_nonvacuous :
+  ~ In 2 (map d_key (declarations [holder_file])) /\ In 2 (flat_map file_holders [holder_file]).
+Proof. split; [vm_compute; intros [H|[]]; discriminate|vm_compute; auto]. Qed.
+
+Theorem C08_placeholder_refuted : exists fs k, In k (flat_map file_holders fs) /\ contexts_of k (compile fs) = [].
+Proof. exact placeholder_refuted. Qed.
+Print Assumptions C08_placeholder_refuted.
+
+(* the order in which the files are parsed: Model.flatten never runs out of fuel and IS the depth-first preorder that
+   C05 specifies (Imports/Collect.dfs), for every import graph: cross edges, diamonds, cycles, unknown files *)
+Theorem C08_flatten_is_dfs : forall g,
+  Collect.dfs (Datatypes.S (List.length g)) (graph_of g) (present_of g) [] 0 = Some (flatten g).
+Proof. exact flatten_is_dfs. Qed.
+Print Assumptions C08_flatten_is_dfs.
+
+Theorem C08_flatten_nodup : forall g, NoDup (flatten g).
+Proof. exact flatten_nodup. Qed.
+Print Assumptions C08_flatten_nodup.
+
+Theorem C08_flatten_closed : forall g,
+  (g <> [] -> In 0 (flatten g)) /\
+  forall x, In x (flatten g) -> present_of g x = true /\
+    forall c, In c (graph_of g x) -> present_of g c = true -> In c (flatten g).
+Proof. exact flatten_closed. Qed.
+Print Assumptions C08_flatten_closed.
+
+Theorem C08_flatten_root_first : forall g, g <> [] -> exists s, flatten g = 0 :: s.
+Proof. exact flatten_root_first. Qed.
+Print Assumptions C08_flatten_root_first.
+
+(* decl_order: the contexts of an element are its declarations file by file in parse order (position in flatten g),
+   inside a file in text order *)
+Theorem C08_decl_order : forall fs g k,
+  map (fun c => (cfile c, cstart c)) (contexts_of k (compile_spec fs g))
+  = per_file k 0 (map (fun i => nth (N.to_nat i) fs dfile) (flatten g)).
+Proof. exact decl_order. Qed.
+Print Assumptions C08_decl_order.
+
+Theorem C08_decl_order_sorted : forall fs g k,
+  Sorted.StronglySorted N.le (map cfile (contexts_of k (compile_spec fs g))).
+Proof. exact decl_order_sorted. Qed.
+Print Assumptions C08_decl_order_sorted.
+
+(* non-vacuity: the two files of ex_files importing each other (a cycle): the app (key 1) is declared in both, the
+   contexts come root first *)
+Example C08_decl_order_nonvacuous :
+  flatten [[1]; [0]] = [0; 1]
+  /\ map (fun c => (cfile c, lline (cstart c), lcol (cstart c))) (contexts_of 1 (compile_spec ex_files [[1]; [0]])) = [(0, 0, 0); (1, 0, 0)].
+Proof. vm_compute. split; reflexivity. Qed.
+
+(* obligations against the current source, round 3 *)
+Theorem C08_source_helper_stateless :
+  (helper_fields, listener_sc_type, get_receiver_reads, get_receiver_writes, get_foreign_idents)
+  = (["filename string"; "version string"], "sourceCtxHelper", ["s.filename"; "s.version"], [], [])%string.
+Proof. exact helper_is_stateless. Qed.
+Print Assumptions C08_source_helper_stateless.
+
+Theorem C08_source_get_calls :
+  get_calls = ["end.GetColumn"; "end.GetLine"; "end.GetText"; "int32"; "len"; "start.GetColumn"; "start.GetLine"]%string.
+Proof. exact get_calls_ok. Qed.
+Print Assumptions C08_source_get_calls.
+
+Theorem C08_source_file_switch :
+  switch_eqb sc_switch FreshLiteral && sc_switch_in_file_loop = true
+  /\ parsespecs_listener_writes = ["listener.base"; "listener.sc"]%string.
+Proof. exact file_switch_ok. Qed.
+Print Assumptions C08_source_file_switch.
+
+Theorem C08_source_lastend_writers :
+  lastend_writers = ["EnterText_stmt"; "getSrcCtxFor"]%string /\ text_end_only_in_nondoc_branch = true.
+Proof. exact lastend_writers_ok. Qed.
+Print Assumptions C08_source_lastend_writers.
